@@ -6,7 +6,7 @@ import wkd
 import c11
 from wkd import R, alist, fixed_list, free_slots, pstr, pattern_vector
 
-NZ = [1, 2, R - 1, R + 1, (1 << 256) - 1, 5]      # all non-zero mod r
+NZ = [1, 2, R - 1, R + 1, (1 << 256) - 1, 5] + wkd.ALGEBRAIC[:6]      # all non-zero mod r
 
 
 def differ(l, a, b):
